@@ -72,6 +72,7 @@ int main(int argc, char** argv) {
     ExecResult r0, r;
     ExecOpts e0; execute(c, e0, r0);
     std::string err;
+    if (r0.csr_after != r0.csr_before) err = sfmt("the call leaves the floating-point control register changed (MXCSR control bits 0x%x -> 0x%x): later results depend on it", r0.csr_before, r0.csr_after);
     for (int k = 1; k < 8 && err.empty(); ++k) {
       ExecOpts e; e.prefill = k % 3; for (int i = 0; i < 12; ++i) e.off[i] = 8 * ((i + k) % 8);
       execute(c, e, r);
